@@ -161,6 +161,8 @@ Record code := {
   c_quick : list startop;                          (* what quick_estimate() does before optimising *)
   c_boot_suspends : bool;                          (* saving suspended around the bootstrap loop *)
   c_boot_restores : bool;                          (* estimation data put back after the loop *)
+  c_abort_resumes : bool;     (* the `finally` clause of the loop re-enables saving *)
+  c_abort_restores : bool;    (* the `finally` clause of the loop puts the estimation data back *)
 }.
 
 (* --------------------------------------------------------------------- sessions *)
@@ -269,7 +271,10 @@ Section Sem.
   | CrashEval (x : list val) (f : fval) (gfin : bool) (k : nat)
         (* the process is stopped after k primitive steps of this evaluation's save; whatever
            comes next in the history is done by a new process *)
-  | Kill.                                           (* stopped between two evaluations *)
+  | Kill                                            (* stopped between two evaluations *)
+  | BootstrapAbort.
+        (* the bootstrap loop is left by an exception (KeyboardInterrupt, an error on a resample):
+           only its `finally` clause runs; the object stays alive and may be used again *)
 
   Definition len_ok (cfg : config) (x : list val) : bool :=
     Nat.eqb (List.length x) (List.length (cf_names cfg)).
@@ -296,6 +301,10 @@ Section Sem.
           fresh cfg (run_steps (st_fs s) (firstn k (atomize plan)))
         else fresh cfg (st_fs s)
     | Kill => fresh cfg (st_fs s)
+    | BootstrapAbort =>
+        {| st_fs := st_fs s; st_best := st_best s;
+           st_susp := negb (c_abort_resumes c) && st_susp s;
+           st_other := negb (c_abort_restores c) && st_other s; st_init := st_init s |}
     end.
 
   Definition run (cfg : config) (s : state) (h : list op) : state := fold_left (step cfg) h s.
@@ -312,6 +321,7 @@ Section Sem.
     | BootstrapBegin => (l, true)
     | BootstrapEnd => (l, false)
     | CrashEval _ _ _ _ | Kill => ([], false)
+    | BootstrapAbort => (l, false)
     end.
   Definition counted (cfg : config) (h : list op) : list (list val * fval) :=
     fst (fold_left (spec_step cfg) h ([], false)).
@@ -340,7 +350,7 @@ End Sem.
 
 Arguments Eval {val}. Arguments CrashEval {val}. Arguments EstimateStart {val}.
 Arguments QuickStart {val}. Arguments BootstrapBegin {val}. Arguments BootstrapEnd {val}.
-Arguments Kill {val}.
+Arguments Kill {val}. Arguments BootstrapAbort {val}.
 
 (* ------------------------------------------------- executable instance used by the streams *)
 (* values are represented by their decimal text (what str(v) printed) *)
